@@ -3,4 +3,4 @@
 
 package geometry
 
-func verifStep(site string, n, bound int) int { return n }
+func verifStep(site string, n, bound int, ctx ...interface{}) int { return n }
